@@ -297,3 +297,32 @@ CHECKS['C17'] = dict(
     min_counters={'quick': {'pvq_NK_pairs': 600, 'pvq_pairs_exhaustive': 300, 'laplace_points_checked': 300 * 32768, 'icdf_live_tables_distinct': 60, 'icdf_static_tables_checked': 30, 'cache_entries_checked': 1000},
                   'thorough': {'pvq_NK_pairs': 600}},
 )
+
+C18_WRAPS = ['silk_NLSF_encode', 'silk_gains_quant']
+CHECKS['C18'] = dict(
+    level='exploration',
+    rule="nlsf: one case per (codebook, first-stage vector) = 2 x 32: residual all-zero, every coefficient alone at every value -10..10, "
+         "neighbouring pairs at opposite extremes, six global patterns (exhaustive over these), then random residual vectors in four styles "
+         "(uniform, {-10,0,10}, high top coefficients with mixed large residuals, small); for every decoded vector: ordering and deltaMin "
+         "spacing, silk_NLSF2A + library inverse-gain test + independent double step-down (reflection coefficients < 1, gain <= 1e4), "
+         "interpolation factors 0..3 against the previous vector, post-loss bandwidth expansion. nlsfenc: every call the real SILK encoder "
+         "makes to silk_NLSF_encode / silk_gains_quant under forced SILK/hybrid workloads is interposed and replayed through the decoder functions. gains: every (previous 0..63, first index [64 absolute | 41 delta], second delta 0..40) x "
+         "{2,4} sub-frames with extreme/random tails; silk_gains_quant vs silk_gains_dequant on every (previous, level) with dithered, "
+         "extreme and random gains. pitch: all 65536 lag indices x all contours x {8,12,16} kHz x {2,4} sub-frames. hook: the same "
+         "predicates on every SILK frame decoded during hostile + normal decoding (hook H2).",
+    assumptions=COMMON_ASSUME + ["bounds are the documented ones: codebook deltaMin, MAX_PREDICTION_POWER_GAIN 1e4 (2% slack for the fixed-point gain estimate), lag range 2..18 ms"],
+    evals_counter=None,
+    runs=[
+        dict(h='h_c18.c', mode='nlsf', flavour='asan', n=64, args={'quick': ['random=3000'], 'thorough': ['random=900000']}, wraps=C18_WRAPS),
+        dict(h='h_c18.c', mode='nlsfenc', flavour='asan', n={'quick': 640, 'thorough': 16000}, wraps=C18_WRAPS),
+        dict(h='h_c18.c', mode='nlsfenc', flavour='asan-fixed', n={'quick': 320, 'thorough': 8000}, wraps=C18_WRAPS),
+        dict(h='h_c18.c', mode='gains', flavour='asan', n=1, shards=1, wraps=C18_WRAPS),
+        dict(h='h_c18.c', mode='pitch', flavour='asan', n=6, wraps=C18_WRAPS),
+        dict(h='h_c18.c', mode='hook', flavour='asan', n={'quick': 6000, 'thorough': 200000}, wraps=C18_WRAPS),
+        dict(h='h_c18.c', mode='hook', flavour='asan-fixed', n={'quick': 2000, 'thorough': 60000}, wraps=C18_WRAPS),
+        dict(h='h_c18.c', mode='nlsf', flavour='asan-fixed', n=64, args={'quick': ['random=500'], 'thorough': ['random=100000']}, wraps=C18_WRAPS),
+    ],
+    min_nontrivial={'quick': 60, 'thorough': 60},
+    min_counters={'quick': {'nlsf_vectors': 200000, 'nlsf_interpolations': 800000, 'gain_chains_checked': 500000, 'gain_quant_roundtrips': 49152, 'pitch_combinations': 6000000, 'hook_silk_frames_observed': 20000, 'hook_voiced_frames': 2000, 'nlsf_encodes': 20000, 'live_gain_quants': 20000},
+                  'thorough': {'nlsf_vectors': 50000000}},
+)
